@@ -8,6 +8,7 @@ from .. import mir as M
 from .. import tables as T
 
 META = {
+    "all_features": True,
     "explanation": "The codec is table-driven generated code, so the property reduces to agreement of finite tables, decided exactly. Oracle: asm.yml "
                    "read independently with PyYAML plus the pinned opcode table. Tables recovered from the MIR of crate essential_asm: T1 TryFrom<u8> (byte -> opcode variant, "
                    "otherwise -> InvalidOpcodeError(byte)); T2 From<opcode> for u8 and the enum discriminants; T3 ToBytes (op variant -> bytes_iter variant{index 0, [opcode, imm..]}) "
